@@ -196,7 +196,7 @@ def obligations(ctx, cfg):
         CreateSubscription(ctx),
     ]
     from props.actor_steps import ReceiveDropped
-    for v in ('PullMessages', 'AcknowledgeMessages', 'ModifyDeadline', 'GetInfo', 'GetStats'):
+    for v in ('PullMessages', 'AcknowledgeMessages', 'ModifyDeadline', 'GetInfo', 'GetStats', 'Delete'):
         obs.append(ReceiveDropped(ctx, v))
     return obs
 
